@@ -50,6 +50,11 @@ ALSO = {
     # the printer caps the list of branching variables while the skip test still expects every variable: a panic (C08) and no
     # Result type at all (C01 reports the cut variable list)
     "C08-r7m3": ["C08", "C01"],
+    # round 8: operation files registered before the plugin's virtual schema file (FileStore order panic, exit 0): C18's
+    # schema-before-operations clause, as for C18-r6m1
+    "C08-r8m3": ["C08", "C18"],
+    # a duplicate definition across two files at the same line/column silently accepted (as C17-r6m1)
+    "C17-r8m2": ["C17", "C11"],
 }
 
 
